@@ -18,7 +18,9 @@
      configuration, hash, wiring, schema, identifier numbering, data views, saved form and run results
      remain exactly what they were"
         -> ownership_invariant (no dictionary reachable from a built object is writable through any builder,
-           after any history), built_dataset_frozen, built_pipeline_frozen (every observation constant along
+           after any history; connect() resolving node names, node objects and ALIASES alike: connect_by_alias_is_connect_by_name,
+           modify_then_connect_by_any_name_frozen; no function handed a built object writes through it:
+           derivations_do_not_write_their_source), built_dataset_frozen, built_pipeline_frozen (every observation constant along
            every continuation in which that pipeline itself is not trained and trained pipelines own their
            trainable instances), built_pipeline_config_frozen (configuration part: unconditionally)
    * "Components likewise leave the item lists they are given unchanged"
@@ -68,9 +70,37 @@ Print Assumptions run_and_train_leave_data_alone_partial.
 
 (* the alias table as extracted from the current source: every derivation copies, every build constructs by-class components anew *)
 Theorem alias_table_as_required : from_pipeline_edges = Copy /\ build_wiring = Copy /\ dsb_init_schema = Copy /\ build_container_schema = Copy /\
-  build_instances_fresh = true /\ connect_creates_fresh = true /\ clear_inputs_fresh = true /\ clone_via_config = true.
+  build_instances_fresh = true /\ connect_creates_fresh = true /\ clear_inputs_fresh = true /\ clone_via_config = true /\
+  connect_resolves_alias = true.
 Proof. exact alias_table_l. Qed.
 Print Assumptions alias_table_as_required.
+
+(* "rewiring ... components" however the component is named: connect() accepts a node name, a node object or an ALIAS; the model
+   resolves the name through the builder's alias table (as PipelineBuilder.node does) and edits the dictionary of the resolved node.
+   Naming a component by an alias is the same operation as naming it by its node name ... *)
+Theorem connect_by_alias_is_connect_by_name : forall s i b a t f,
+  nth_error (st_pblds s) i = Some b -> dget a (p_aliases b) = Some t -> dget t (p_aliases b) = None ->
+  step s (PBWire i a f) = step s (PBWire i t f).
+Proof. exact connect_alias_l. Qed.
+Print Assumptions connect_by_alias_is_connect_by_name.
+
+(* ... and on the builder obtained from modify() it leaves the pipeline's wiring and aliases what they were, whatever name
+   or alias `a` and whatever edit `f` *)
+Theorem modify_then_connect_by_any_name_frozen : forall s j p a f, inv s -> nth_error (st_pipes s) j = Some p ->
+  let s1 := step s (PModify j) in
+  let s2 := step s1 (PBWire (length (st_pblds s)) a f) in
+  nth_error (st_pipes s2) j = Some p /\
+  po_edges (obs_p s2 p) = po_edges (obs_p s p) /\ po_aliases (obs_p s2 p) = po_aliases (obs_p s p).
+Proof. exact connect_alias_frozen_l. Qed.
+Print Assumptions modify_then_connect_by_any_name_frozen.
+
+(* "creating a dataset builder from it ...; splitting it": regenerated scan of the source -- no function of lenskit that is handed a
+   built Dataset / DataContainer / Pipeline assigns through it, through a local bound to something reached from it without a
+   copying call (the frames cached inside a dataset -- user_stats(), item_stats() -- are such things), or calls an in-place
+   method / inplace=True on either *)
+Theorem derivations_do_not_write_their_source : source_param_writes = [].
+Proof. exact no_source_writes_l. Qed.
+Print Assumptions derivations_do_not_write_their_source.
 
 (* regenerated scan of the source: no component __call__ assigns through an ItemList parameter, through a local bound
    to its contents without a copy, or calls an in-place method on either *)
@@ -78,7 +108,7 @@ Theorem components_do_not_write_itemlists : itemlist_param_writes = [].
 Proof. exact no_itemlist_writes_l. Qed.
 Print Assumptions components_do_not_write_itemlists.
 
-(* non-vacuity: a dataset and a pipeline are built; then the pipeline is modified and rewired, cloned and the clone
+(* non-vacuity: a dataset and a pipeline are built; then the pipeline is modified and rewired (the component named by its ALIAS "rec"), cloned and the clone
    trained, the producing builders keep being used, a builder derived from the dataset adds a class -- the history
    is admissible and both originals are observed unchanged *)
 Example c14_nonvacuous :
@@ -87,7 +117,7 @@ Example c14_nonvacuous :
                DBuild 0;
                PNew (Some "p"); PBNode 0 "a" NSIn; PBNode 0 "b" NSIn; PBNode 0 "n" (NSCtor "vcomp:Learner");
                PBWire 0 "n" (fun w => dset "x" "a" w); PBAlias 0 (fun a => dset "rec" "n" a); PBuild 0] in
-  let ops2 := [PModify 0; PBWire 1 "n" (fun w => dset "x" "b" w); PBWire 0 "n" (fun w => dset "x" "b" w);
+  let ops2 := [PModify 0; PBWire 1 "rec" (fun w => dset "x" "b" w); PBWire 0 "n" (fun w => dset "x" "b" w);
                PClone 0; PTrain 1 "d0" ["vcomp:Learner"]; PBuild 1; PRun 2;
                DFrom 0; DBEnts 1 (fun e => dset "tag" "{}" e); DBEnts 0 (fun e => dset "genre" "{}" e); DBuild 1; DBuild 0] in
   let s1 := run init ops1 in let s2 := run s1 ops2 in
